@@ -50,11 +50,17 @@ def summarize(cfg, local, replies, obs):
     codes = []
     for o in obs:
         codes += [code_state(o) if o['pending'] <= 1 else -1, code_frames(o['sent'])]
-    found = oracle(cfg, local, replies, obs)
+    from vf import hs_impl as H
+    fac = H.run_factory(cfg, local, replies)
+    found = oracle(cfg, local, replies, obs, fac)
     last = obs[-1]
+    # factory must agree with the observed flags (ready <-> event set and no error; timeout <-> event not set)
+    derived = 'ready' if last['reported_ready'] else 'timeout' if not last['connected'] else 'error'
+    fac_kind = fac if fac in ('ready', 'timeout') else 'error'
+    mismatch = None if derived == fac_kind else 'Connection.factory() outcome %s but connected=%s last_error=%s' % (fac, last['connected'], last['last_error'])
     rec = {'cfg': cfg, 'local': local, 'replies': replies, 'codes': codes, 'found': found, 'nontrivial': nontrivial(replies, obs),
            'outcome': 'ready' if last['reported_ready'] else last['last_error'] if last['last_error'] != 'none' else 'pending',
-           'obs': obs if found else None, 'sample': None}
+           'obs': obs if found else None, 'sample': None, 'factory': fac, 'factory_mismatch': mismatch}
     if len(replies) >= 4 and last['reported_ready']:
         rec['sample'] = {'cfg': cfg, 'local': local, 'replies': replies, 'final': {k: v for k, v in last.items() if k != 'sent'},
                          'sent': [[f['kind'], f['compressed'], f['checksummed']] for o in obs for f in o['sent']]}
@@ -62,7 +68,7 @@ def summarize(cfg, local, replies, obs):
 
 
 # ------------------------------------------------------------------------------------------ the statement, on the implementation
-def oracle(cfg, local, replies, obs):
+def oracle(cfg, local, replies, obs, factory=None):
     """-> list of (key, what, theorem) : failures of the PROPERTY (not of the model) on the observed behaviour."""
     out = []
     v = cfg['version']
@@ -134,6 +140,17 @@ def oracle(cfg, local, replies, obs):
         if (o['seg_lz4'] or any(f['compressed'] or f['seg_compressed'] for f in o['sent'])) and announced is None:
             out.append(('compressed-without-negotiation', 'outgoing frames/segments are compressed although STARTUP announced no COMPRESSION', 'C47_compression_both_sides'))
         frames_check(o, accept_seen)
+        # ... and once accepted, the negotiated compression IS applied, in the framing of the protocol version
+        for f in o['sent']:
+            if f['kind'] in ('auth_response', 'credentials'):
+                applied = f['seg_compressed'] if cs else f['compressed']
+                if applied != (announced is not None) or (cs and not f['checksummed']):
+                    out.append(('negotiated-compression-not-applied.%s' % f['kind'],
+                                '%s sent with compression applied=%s checksummed=%s although STARTUP announced COMPRESSION=%r on protocol v%d'
+                                % (f['kind'], applied, f['checksummed'], announced, v), 'C47_negotiated_compression_applied'))
+        if became_ready and ready_seen and cs and o['seg_lz4'] != (announced is not None):
+            out.append(('negotiated-compression-not-applied.ready', 'connection ready on v%d with a %s segment codec although STARTUP announced COMPRESSION=%r'
+                        % (v, 'compressing' if o['seg_lz4'] else 'non-compressing', announced), 'C47_negotiated_compression_applied'))
         for attr in ('compressor', 'decompressor'):
             n = o[attr]
             if n is not None and (n not in localn or remoten is None or n not in remoten):
@@ -145,6 +162,14 @@ def oracle(cfg, local, replies, obs):
             out.append(('checksumming-off.v%d' % v, 'ready connection on protocol v%d has checksumming=%s' % (v, o['checksumming']), 'C47_checksumming_iff_v5'))
         for f in o['sent']:
             last_sent = f['kind']
+    # what the REAL Connection.factory() does with this connect attempt
+    if factory is not None:
+        if factory == 'ready' and not ready_seen:
+            out.append(('factory-returned-unready',
+                        'Connection.factory() returned the connection as ready although neither READY nor AUTH_SUCCESS was received '
+                        '(is_closed=%s, last_error=%s)' % (obs[-1]['closed'], obs[-1]['last_error']), 'C47_ready_only_after'))
+        if factory != 'ready' and obs[-1]['last_error'] == 'auth_failed' and factory != 'auth_failed':
+            out.append(('factory-auth-error-lost', 'authentication failure surfaced from Connection.factory() as %s' % factory, 'C47_error_kinds'))
     return out
 
 
